@@ -55,10 +55,10 @@ impl TypeInfo for Documented {
         Type::builder()
             .path(Path::new("Documented", module_path!()))
             .type_params(vec![scale_info::TypeParameter::new("T", Some(meta_type::<u16>())), scale_info::TypeParameter::new("U", None)])
-            .docs_always(&["type doc 1", "type doc 2"])
+            .docs_always(&["type doc 1", "", "type doc 2", "", ""])
             .variant(
                 Variants::new()
-                    .variant("A", |v| v.index(3).docs_always(&["variant A doc"]).fields(Fields::named().field(|f| f.ty::<u8>().name("a").type_name("u8").docs_always(&["field a doc"])).field(|f| f.compact::<u32>().name("b").type_name("u32"))))
+                    .variant("A", |v| v.index(3).docs_always(&["variant A doc", ""]).fields(Fields::named().field(|f| f.ty::<u8>().name("a").type_name("u8").docs_always(&["", "field a doc", " "])).field(|f| f.compact::<u32>().name("b").type_name("u32"))))
                     .variant("B", |v| v.index(200).docs_always(&["variant B doc", "more"]).fields(Fields::unnamed().field(|f| f.ty::<Vec<Documented>>().type_name("Vec < Documented >").docs_always(&["unnamed doc"])).field(|f| f.ty::<u64>().type_name("< T as Config > :: Hash , u64 ; 4"))))
                     .variant_unit("C", 7),
             )
